@@ -40,3 +40,16 @@ Theorem C08_kblock `{Sig} : forall st bs st', seq_items st bs = Some st' ->
   stepk None st (KBlock bs) = (ROk 0, st').
 Proof. exact compose_kblock. Qed.
 Print Assumptions C08_kblock.
+
+(** 3-maps: every public call (links, sews with the lock-step face walks, ids) stays inside its
+    transaction -- three_sew / three_unsew only since their faces are read with orbit_transac --
+    hence a block of 3-map calls equals the sequence of [force_*] calls. *)
+From HC Require Import Map3.Ops3 Map3.Tx3Proofs.
+Theorem C08_calls3_no_atomic `{Sig} : forall n ks c, no_atomic (call3_prog n ks c).
+Proof. exact na_call3. Qed.
+Print Assumptions C08_calls3_no_atomic.
+
+Theorem C08_block3 `{Sig} : forall st cs st', seq_force3 st cs = Some st' ->
+  step3 None st (Block3 cs) = (ROk 0, st').
+Proof. exact compose3. Qed.
+Print Assumptions C08_block3.
